@@ -386,6 +386,19 @@ func (s *State) linOf(e *Expr) Lin {
 		if s.rangeOfD(e.Args[0], 1).SubsetOf(typeRange(e.Typ)) {
 			return s.linOf(e.Args[0])
 		}
+	case "call":
+		// min/max whose order is decided in this state denote one operand
+		if (e.S == "min" || e.S == "max") && len(e.Args) == 2 {
+			la, lb := s.linOf(e.Args[0]), s.linOf(e.Args[1])
+			aLEb := s.impliedGEBasic(lb.add(la, -1))
+			bLEa := s.impliedGEBasic(la.add(lb, -1))
+			switch {
+			case aLEb && e.S == "min", bLEa && e.S == "max":
+				return la
+			case bLEa && e.S == "min", aLEb && e.S == "max":
+				return lb
+			}
+		}
 	case "len":
 		x := e.Args[0]
 		switch x.Op {
@@ -414,6 +427,13 @@ func (s *State) linOf(e *Expr) Lin {
 
 // impliedGE reports whether l >= 0 holds in every concrete state described.
 func (s *State) impliedGE(l Lin) bool {
+	if s.impliedGEBasic(l) {
+		return true
+	}
+	return s.impliedGECongruent(l)
+}
+
+func (s *State) impliedGEBasic(l Lin) bool {
 	if c, ok := l.isConst(); ok {
 		return c >= 0
 	}
@@ -450,6 +470,42 @@ func (s *State) impliedGE(l Lin) bool {
 				if r := s.rangeOfLin(d2, 0); !r.Empty() && r.Lo() >= 0 {
 					return true
 				}
+			}
+		}
+	}
+	return false
+}
+
+// impliedGECongruent strengthens a lower bound by a known congruence: with
+// l = V + C, if V ≡ r (mod m) is determined and V >= k0 is provable for some
+// k0 whose next value congruent to r is already >= -C, then l >= 0.
+// (i < len(b), len(b)%4 == 0, i%4 == 0  =>  len(b)-i >= 4.)
+func (s *State) impliedGECongruent(l Lin) bool {
+	if s.an == nil || len(l.T) == 0 || len(l.T) > 3 {
+		return false
+	}
+	v := l
+	v.C = 0
+	need := -l.C // V >= need
+	for _, m := range s.an.moduli {
+		if m > 64 {
+			continue
+		}
+		cg := s.an.congruences(s, v)
+		r, ok := cg[m]
+		if !ok {
+			continue
+		}
+		for k0 := need - m + 1; k0 < need; k0++ {
+			// smallest x >= k0 with x ≡ r (mod m)
+			x := k0 + (((r-k0)%m)+m)%m
+			if x < need {
+				continue
+			}
+			t := v
+			t.C = -k0
+			if s.impliedGEBasic(t) {
+				return true
 			}
 		}
 	}
